@@ -5,6 +5,7 @@ import ast
 import re
 
 from vk import astx, numkind
+from vk.report import shape_rule
 from vk.algebra import Normalizer, bool_key, literals, simplify, atoms_of
 from vk.loader import AnalysisError
 from rules import c03
@@ -108,11 +109,9 @@ def r2_validators(ctx):
         pm = astx.parents(w.node)
         N = Normalizer(w.node, inline=False)
         conv = [st for st, dv in astx.defs_of(w.node, p) if dv is not None]
-        rets = [n for n in astx.walk_own(w.node) if isinstance(n, ast.Return)]
-        good = len(conv) == 1 and astx.u(conv[0].value) == f"Fraction({p}).limit_denominator()" and \
-            literals(N.conj(astx.path_condition(w.node, conv[0], pm))) == {f"not truthy(isinstance({p}, Fraction))"} and \
-            len(rets) == 1 and astx.is_name(rets[0].value, p)
-        ctx.check(good, w, conv[0] if conv else w.node, "weight -> Fraction(w).limit_denominator() unless already a Fraction", "",
+        rc = astx.return_cases(w.node, N, pm)
+        good = rc == {f"not truthy(isinstance({p}, Fraction))": f"Fraction({p}).limit_denominator()", f"truthy(isinstance({p}, Fraction))": p}
+        ctx.check(good, w, conv[0] if conv else w.node, "weight -> Fraction(w).limit_denominator() unless already a Fraction", str(rc),
                   "the weight validator no longer converts with Fraction(x).limit_denominator() (default bound) / returns the value")
     # scores
     s = _validator(prog, cls, "scores", "before")
@@ -158,6 +157,7 @@ def _setattr_value(f, field):
     return None, None
 
 
+@shape_rule
 def r3_derived(ctx):
     prog = ctx.prog
     pp = prog.find_class("PreferenceProfile")
@@ -309,11 +309,12 @@ def r5_eq_hash(ctx):
     ctx.check(not bad, hs, bad[0] if bad else hs.node, "__hash__ reads dict/set-valued fields only through frozenset(...)/sorted(...)", f"unordered fields: {sorted(unordered)}",
               f"`{astx.u(astx.stmt_of(bad[0], hpm))[:90] if bad else ''}`: `self.{bad[0].attr if bad else ''}` is hashed in its insertion order, but __eq__ ignores that order")
     rets = [n for n in astx.walk_own(eq.node) if isinstance(n, ast.Return)]
-    ctx.check(any(astx.is_const(r.value, True) for r in rets) and f"not truthy(isinstance({other}, Ballot))" in
+    ctx.check(any(not astx.is_const(r.value, False) for r in rets) and f"not truthy(isinstance({other}, Ballot))" in
               {x for r in rets if astx.is_const(r.value, False) for x in literals(N.conj(astx.path_condition(eq.node, r, pm)))}, eq, eq.node,
               "non-Ballot operands compare unequal", "", "type check of __eq__ changed")
 
 
+@shape_rule
 def r6_condense_add(ctx):
     prog = ctx.prog
     f = prog.find_func("PreferenceProfile.condense_ballots")
@@ -405,32 +406,32 @@ def r7_dict_views(ctx):
         b = astx.u(lp.target)
         no_skip = not any(isinstance(n, (ast.Continue, ast.Break, ast.Return)) for n in ast.walk(lp))
         N = Normalizer(f.node, inline=False)
-        wdefs = {bool_key(N.conj(astx.path_condition(f.node, st, pm, carried=False))): astx.u(dv) for st, dv in astx.defs_of(f.node, "weight") if dv is not None}
-        tot = astx.unique_def(f.node, "tot_weight")
-        okw = wdefs == {"truthy(standardize)": f"{b}.weight / tot_weight", "not truthy(standardize)": f"{b}.weight"} and tot is not None and astx.u(tot) == "self.total_ballot_wt"
-        stores = [n for n in astx.walk_own(lp) if isinstance(n, (ast.Assign, ast.AugAssign)) and isinstance((n.targets[0] if isinstance(n, ast.Assign) else n.target), ast.Subscript)]
-        oks = len(stores) == 2
-        key = None
+        from vk import accum
+        accs = [a for a in accum.accumulations(f.node, N) if astx.enclosing(a.node, pm, ast.For) is lp]
+        oks = len(accs) == 1 and not accs[0].conditional
+        key = astx.u(accs[0].key) if accs else None
+        wdefs = okw = okk = None
         if oks:
-            init = [n for n in stores if isinstance(n, ast.Assign)]
-            acc = [n for n in stores if isinstance(n, ast.AugAssign)]
-            oks = len(init) == 1 and len(acc) == 1 and astx.u(init[0].value) == "weight" and astx.u(acc[0].value) == "weight" and isinstance(acc[0].op, ast.Add) \
-                and astx.u(init[0].targets[0]) == astx.u(acc[0].target)
-            if oks:
-                key = astx.u(init[0].targets[0].slice)
-                li = literals(N.conj(astx.path_condition(f.node, init[0], pm, carried=False)))
-                la = literals(N.conj(astx.path_condition(f.node, acc[0], pm, carried=False)))
-                d_ = astx.u(init[0].targets[0].value)
-                oks = li == {f"not in({key}, {d_}.keys())"} and la == {f"in({key}, {d_}.keys())"}
-        okk = False
-        if key:
-            kd = [dv for st, dv in astx.defs_of(f.node, key) if dv is not None]
+            a = accs[0]
+            # what is added: the ballot's weight, divided by the total when standardize is set (effective value at the accumulation)
+            wname = astx.u(a.inc)
+            wdefs = astx.cases_dict(f.node, wname, a.node, N, pm) if isinstance(a.inc, ast.Name) else {"True": N.key(a.inc)}
+            tots = {m.group(1) for v in (wdefs or {}).values() for m in [re.fullmatch(rf"{re.escape(b)}\.weight / (\w+)", v)] if m}
+            tot = astx.unique_def(f.node, next(iter(tots))) if len(tots) == 1 else None
+            okw = wdefs is not None and set(wdefs) == {"truthy(standardize)", "not truthy(standardize)"} and wdefs["not truthy(standardize)"] == f"{b}.weight" \
+                and tot is not None and astx.u(tot) == "self.total_ballot_wt" and wdefs["truthy(standardize)"] == f"{b}.weight / {next(iter(tots))}"
+            # the first value stored under a new key is that same increment (the sum starts at zero)
+            oks = a.first == a.inc_key
+            # the key holds the ballot's content
+            kc = astx.cases_dict(f.node, key, a.node, N, pm) if isinstance(a.key, ast.Name) else None
             if keyform == "ballot":
-                okk = len(kd) == 1 and astx.u(kd[0]) == f"Ballot(ranking={b}.ranking, scores={b}.scores)"
+                okk = kc is not None and list(kc.values()) == [f"Ballot(ranking={b}.ranking, scores={b}.scores)"]
             elif keyform == "ranking":
-                okk = {astx.u(x) for x in kd} == {f"{b}.ranking", "(frozenset(),)"}
+                # `r = b.ranking; if not r: r = (frozenset(),)` tests the variable that already holds b.ranking
+                okk = kc in ({f"truthy({b}.ranking)": f"{b}.ranking", f"not truthy({b}.ranking)": "(frozenset(),)"},
+                             {f"truthy({key})": f"{b}.ranking", f"not truthy({key})": "(frozenset(),)"})
             else:
-                okk = {astx.u(x) for x in kd} == {astx.A(f"tuple([(c, score) for c, score in {b}.scores.items()])"), astx.A("tuple()")}
+                okk = kc == {f"truthy({b}.scores)": astx.A(f"tuple({b}.scores.items())"), f"not truthy({b}.scores)": "()"}
         ctx.check(no_skip and okw and oks and okk, f, lp, f"{name}: weight (or weight/total) of every ballot accumulates under its {keyform} key", f"key={key}, weights={wdefs}",
                   f"{name}: every ballot visited={no_skip}; weight source ok={okw} ({wdefs}); first-store / += accumulate ok={oks}; key is the ballot's {keyform} content={okk}")
 
